@@ -506,6 +506,35 @@ func c20Polyline(family string, n int, tol float64, rnd *rand.Rand) []s2.Point {
 			vs = append(vs, at(r*math.Cos(a), r*math.Sin(a)))
 		}
 		vs = append(vs, vs[0])
+	case "nearend":
+		// the polyline ends with a vertex bitwise different from, but 1..3 ulps (< 1e-15 rad) away from, the
+		// vertex before it (backing up or advancing); n = 2 gives two distinct near-coincident vertices
+		m := n - 1
+		if m < 1 {
+			m = 1
+		}
+		amp := []float64{0, 0, 0.3 * tol, 2 * tol}[rnd.Intn(4)]
+		for k := 0; k < m; k++ {
+			vs = append(vs, at(step*float64(k), amp*float64(2*(k%2)-1)))
+		}
+		last := vs[len(vs)-1]
+		for tries := 0; tries < 20; tries++ {
+			q := last
+			ul := float64(1 + rnd.Intn(3))
+			sg := float64(1 - 2*rnd.Intn(2))
+			switch rnd.Intn(3) {
+			case 0:
+				q.X += sg * ul * (math.Nextafter(math.Abs(q.X), 2) - math.Abs(q.X))
+			case 1:
+				q.Y += sg * ul * (math.Nextafter(math.Abs(q.Y), 2) - math.Abs(q.Y))
+			default:
+				q.Z += sg * ul * (math.Nextafter(math.Abs(q.Z), 2) - math.Abs(q.Z))
+			}
+			if q != last {
+				vs = append(vs, q)
+				break
+			}
+		}
 	case "long":
 		x := 0.0
 		for k := 0; k < n; k++ {
